@@ -97,7 +97,7 @@ def eval_C19(item):
         nan_row = None
         if item.get('nanrow') is not None and len(cat) >= 2:
             nan_row = item['nanrow'] % len(cat)
-            cat['x_cen'][nan_row] = np.nan
+            cat['x_cen' if item['nanrow'] % 2 else 'y_cen'][nan_row] = np.nan
         sc = Scatter(d, v.hub, cat, 'x_cen', 'y_cen')
     row_ids = [int(x) for x in cat['_idx']]
 
@@ -159,7 +159,8 @@ def eval_C19(item):
                     # a lasso polygon around exactly those rows: drive the callback with a path hugging the points
                     cb = sc.callback_generator(Ev(button=slot))
                     sc.lasso = None
-                    verts = lasso_around(sc.xys, rows)
+                    # the polygon is drawn around the catalog's own (x, y) columns, not around what the view stored
+                    verts = lasso_around(np.column_stack((np.asarray(cat['x_cen'], dtype=float), np.asarray(cat['y_cen'], dtype=float))), rows)
                     if verts is None:
                         continue
                     cb(verts)
